@@ -69,6 +69,12 @@ def findMeth (ms : List FunDef) (m : String) : Option FunDef :=
   | [] => none
   | d :: r => if d.name = m then some d else findMeth r m
 
+def isUniTag (tops : List Top) (f : String) : Bool :=
+  match tops with
+  | [] => false
+  | .uniDef _ fs :: r => fs.any (fun p => p.1 = f) || isUniTag r f
+  | _ :: r => isUniTag r f
+
 def exnHasPayload (tops : List Top) (e : String) : Option Bool :=
   match tops with
   | [] => none
@@ -496,20 +502,36 @@ def eval : Nat → Env → Expr → M Val
             writeObj a (listSet o i x)
             pure x
           else stuck "record-shape"
+        | [.ref a, x], none =>
+          -- `u.tag := x` on a union: the object changes its branch (unions are shared objects)
+          if isUniTag tops f then do
+            tick .uniSet
+            writeObj a [.str f, x]
+            pure x
+          else stuck "set-field"
         | _, _ => stuck "set-field"
     | .uniLit _ tag e => do
         let v ← eval n env e
         tick .uniLit
-        pure (.uni tag v)
+        let a ← alloc [.str tag, v]
+        pure (.ref a)
     | .ucase u tag => do
         let v ← eval n env u
         match v with
-        | .uni t _ => boolRes .uniCase (t == tag)
+        | .ref a => do
+          let o ← readObj a
+          match o with
+          | [.str t, _] => boolRes .uniCase (t == tag)
+          | _ => stuck "union-shape"
         | _ => stuck "case"
     | .uget u tag => do
         let v ← eval n env u
         match v with
-        | .uni t x => if t = tag then do tick .uniGet; pure x else undef "wrong-union-branch"
+        | .ref a => do
+          let o ← readObj a
+          match o with
+          | [.str t, x] => if t = tag then do tick .uniGet; pure x else undef "wrong-union-branch"
+          | _ => stuck "union-shape"
         | _ => stuck "union-get"
     | .while c body => evalWhile n env c body
     | .forRange x lo hi step body => do
